@@ -4,7 +4,9 @@
 //   c03 <trace-out> <mode>
 #define VH_NO_EXT_ALL
 #include "common.hpp"
+#ifdef C03_SIMD
 #include <glm/gtc/type_aligned.hpp>
+#endif
 #include <glm/gtc/quaternion.hpp>
 #include <glm/gtc/matrix_inverse.hpp>
 #include <glm/integer.hpp>
@@ -48,8 +50,9 @@ template<int L, glm::qualifier Q> void float_ops(size_t k, std::vector<float> co
 #define T3(NAME, X, Y, Z) { V r = glm::NAME(X, Y, Z); EV(#NAME, float, Q, L).arg(X).arg(Y).arg(Z).res(r).emit(); }
     U1(abs, s) U1(floor, s) U1(ceil, s) U1(round, s) U1(trunc, s) U1(fract, a) U1(sign, s) U1(floor, a) U1(ceil, a) U1(round, a) U1(fract, s)
     B2(min, s, s2) B2(max, s, s2) B2(min, a, sc) B2(max, a, sc) B2(mod, a, p) B2(mod, a, ps) B2(step, a, b) B2(step, sc, b)
-    T3(clamp, s, glm::min(a, b), glm::max(a, b)) T3(mix, a, b, c) T3(mix, a, b, sc) T3(fma, a, b, c)
-    { V lo = glm::min(a, b) - 1.0f, hi = glm::max(a, b) + 1.0f; T3(smoothstep, lo, hi, c) }
+    { V lo, hi; for (int i = 0; i < L; ++i) { lo[i] = (b[i] < a[i]) ? b[i] : a[i]; hi[i] = (a[i] < b[i]) ? b[i] : a[i]; } T3(clamp, s, lo, hi) T3(clamp, c, lo, hi) }
+    T3(mix, a, b, c) T3(mix, a, b, sc) T3(fma, a, b, c)
+    { V lo, hi; for (int i = 0; i < L; ++i) { lo[i] = ((b[i] < a[i]) ? b[i] : a[i]) - 1.0f; hi[i] = ((a[i] < b[i]) ? b[i] : a[i]) + 1.0f; } T3(smoothstep, lo, hi, c) }
     { glm::vec<L, bool, Q> m; for (int i = 0; i < L; ++i) m[i] = ((k >> i) & 1) != 0; V r = glm::mix(a, b, m); EV("mixb", float, Q, L).arg(a).arg(b).arg(m).res(r).emit(); }
     U1(sqrt, p) U1(inversesqrt, p) U1(sqrt, s)
     // operators
@@ -63,12 +66,16 @@ template<int L, glm::qualifier Q> void float_ops(size_t k, std::vector<float> co
     // geometric
     { float r = glm::dot(a, b); EV("dot", float, Q, L).arg(a).arg(b).res(r).emit(); }
     { float r = glm::length(a); EV("length", float, Q, L).arg(a).res(r).emit(); float d = glm::distance(a, b); EV("distance", float, Q, L).arg(a).arg(b).res(d).emit(); }
-    if (glm::dot(a, a) > 0.01f) { V r = glm::normalize(a); EV("normalize", float, Q, L).arg(a).res(r).emit(); }
-    { V n = a; if (glm::dot(n, n) > 0.01f) { n = n * (1.0f / std::sqrt(glm::dot(n, n)));
+    // unit vectors are built with plain float arithmetic so that both builds feed bit-identical inputs
+    // (volatile: no fused multiply-add may be formed here by -mfma builds)
+    auto sq = [](V const& x) { float t = 0.0f; for (int i = 0; i < L; ++i) { volatile float m = x[i] * x[i]; t = t + m; } return t; };
+    auto unit = [&](V const& x) { float inv = 1.0f / std::sqrt(sq(x)); V u; for (int i = 0; i < L; ++i) u[i] = x[i] * inv; return u; };
+    if (sq(a) > 0.01f) { V r = glm::normalize(a); EV("normalize", float, Q, L).arg(a).res(r).emit(); }
+    if (sq(a) > 0.01f) { V n = unit(a);
         V r = glm::reflect(b, n); EV("reflect", float, Q, L).arg(b).arg(n).res(r).emit();
-        V i = c; if (glm::dot(i, i) > 0.01f) { i = i * (1.0f / std::sqrt(glm::dot(i, i)));
+        if (sq(c) > 0.01f) { V i = unit(c);
             for (float eta : { 0.5f, 0.9f, 1.0f, 1.5f, 2.5f }) { V rr = glm::refract(i, n, eta); EV("refract", float, Q, L).arg(i).arg(n).arg(eta).res(rr).emit(); } }
-        V ff = glm::faceforward(n, b, c); EV("faceforward", float, Q, L).arg(n).arg(b).arg(c).res(ff).emit(); } }
+        V ff = glm::faceforward(n, b, c); EV("faceforward", float, Q, L).arg(n).arg(b).arg(c).res(ff).emit(); }
     // exact branch ties for faceforward: dot = 0 exactly
     { V n(0.0f), i(0.0f), nr(0.0f); n[0] = 1.0f; i[L > 1 ? 1 : 0] = 1.0f; nr[0] = (L > 1) ? 2.0f : 0.0f; V ff = glm::faceforward(n, i, nr); EV("faceforward", float, Q, L).arg(n).arg(i).arg(nr).res(ff).emit(); }
 #undef U1
